@@ -710,7 +710,20 @@ func deepPointers(msg []byte, off, count int) bool {
 }
 
 func processOracle(ps [][]byte, impl string, tbl map[string]packet.DNSEntry) (string, string) {
+	if w, b := dnsimpl.IsBlocked("ProcessDNS", impl); b {
+		n := len(strings.Fields(impl[:strings.Index(impl, dnsimpl.Blocked)]))
+		return fmt.Sprintf("%s (message %d of the line)", w, n-1), ""
+	}
 	if strings.Contains(impl, "panic") || strings.Contains(impl, "hang") {
+		rs := strings.Fields(impl[:strings.Index(impl+" tbl=", " tbl=")])
+		for i, r := range rs {
+			if r == "panic" || strings.HasPrefix(r, "hang") {
+				if i == 0 {
+					return "ProcessDNS " + r, ""
+				}
+				return fmt.Sprintf("ProcessDNS %s on message %d of the line, on the handler that had answered %s to the message before", r, i, rs[i-1]), ""
+			}
+		}
 		return "ProcessDNS " + impl[:strings.Index(impl+" ", " ")], ""
 	}
 	results := strings.Fields(impl[:strings.Index(impl, " tbl=")])
